@@ -243,15 +243,17 @@ Lemma add_message_good s msg mb flags m :
   exists s2, add_message s msg mb flags = (s2, true) /\ Good s s2 /\
     mboxes s2 = map (bump_row mb) (mboxes s) /\
     links s2 = links s ++ [mkLink (fresh_id (map lk_id (links s))) msg mb (mb_next m) flags (gser s)] /\
-    next_msg s2 = next_msg s.
+    next_msg s2 = next_msg s /\
+    glog s2 = glog s ++ [mkGe (mb_name m) (mb_validity m) (mb_next m) (gser s)] /\
+    gused s2 = gused s.
 Proof.
   intros I Hf. pose proof (find_id_some _ _ _ Hf) as [Hm Ei].
   unfold add_message. rewrite Hf. unfold insert_link.
   assert (Hno : existsb (at_uid mb (mb_next m)) (links (bump s mb)) = false).
   { apply existsb_at_uid_false. simpl. intros l Hl El Eu.
     pose proof (Inv_uid_below s m l I Hm Hl ltac:(congruence)). lia. }
-  rewrite Hno. eexists. split; [reflexivity|]. split; [|simpl; auto].
-  unfold log_for. rewrite (find_id_bump _ _ _ Hf). rewrite bump_row_name, bump_row_validity.
+  rewrite Hno. unfold log_for. rewrite (find_id_bump _ _ _ Hf). rewrite bump_row_name, bump_row_validity.
+  eexists. split; [reflexivity|]. split; [|simpl; repeat split].
   set (ent := mkGe (mb_name m) (mb_validity m) (mb_next m) (gser s)).
   destruct I as [I1 I2 I3 I4 I5 I6 I7 I8 I9].
   assert (Hkey : forall m', In m' (mboxes s) -> mb_name m' = mb_name m -> m' = m).
@@ -496,4 +498,195 @@ Proof.
   - apply find_some in F. destruct F as [H' E]. apply Z.eqb_eq in E. f_equal.
     apply (NoDup_map_inj mb_id (mboxes s)); auto. apply (inv_ids s I).
   - exfalso. eapply find_none in F; eauto. simpl in F. rewrite Z.eqb_refl in F. discriminate.
+Qed.
+
+(** ---- fix wave: allocation from uid_next with write-back ---------------------- *)
+
+Lemma next_row_id mb n m : mb_id (next_row mb n m) = mb_id m.
+Proof. unfold next_row. destruct (mb_id m =? mb); reflexivity. Qed.
+Lemma next_row_name mb n m : mb_name (next_row mb n m) = mb_name m.
+Proof. unfold next_row. destruct (mb_id m =? mb); reflexivity. Qed.
+Lemma next_row_validity mb n m : mb_validity (next_row mb n m) = mb_validity m.
+Proof. unfold next_row. destruct (mb_id m =? mb); reflexivity. Qed.
+
+Lemma find_id_set_next s mb n m :
+  find_id s mb = Some m -> find_id (set_next s mb n) mb = Some (next_row mb n m).
+Proof.
+  unfold find_id, set_next. simpl. induction (mboxes s) as [|x l IH]; simpl; [discriminate|].
+  rewrite next_row_id. destruct (mb_id x =? mb) eqn:E; [intros [= ->]; reflexivity | exact IH].
+Qed.
+
+Lemma set_next_self s mb m :
+  NoDup (map mb_id (mboxes s)) -> find_id s mb = Some m -> set_next s mb (mb_next m) = s.
+Proof.
+  intros N Hf. pose proof (find_id_some _ _ _ Hf) as [Hm Ei].
+  unfold set_next, set_mboxes. replace (map (next_row mb (mb_next m)) (mboxes s)) with (mboxes s).
+  - destruct s; reflexivity.
+  - rewrite <- (map_id (mboxes s)) at 1. apply map_ext_in. intros m' Hm'. unfold next_row.
+    destruct (mb_id m' =? mb) eqn:E; [|reflexivity]. apply Z.eqb_eq in E.
+    assert (m' = m) as -> by (apply (NoDup_map_inj mb_id (mboxes s)); auto; congruence).
+    destruct m; reflexivity.
+Qed.
+
+Lemma Good_core_after s s2 s2' : Good s s2 -> CoreEq s2 s2' -> Good s s2'.
+Proof.
+  intros [I S] E. split; [eapply Inv_core_eq; eauto|].
+  eapply Step_ok_trans; [exact S|]. destruct E as (E1 & E2 & E3 & _). apply Step_ok_same; auto.
+Qed.
+
+(** INSERT with uid = the running counter [n], then uid_next := n + 1, seen from
+    the state in which uid_next already is [n] *)
+Lemma insert_set_good s msg mb n fl d :
+  Inv (set_next s mb n) -> find_id s mb = Some d ->
+  exists s', insert_link s msg mb n fl = Some s' /\
+             Good (set_next s mb n) (set_next s' mb (n + 1)) /\
+             mboxes s' = mboxes s /\
+             links s' = links s ++ [mkLink (fresh_id (map lk_id (links s))) msg mb n fl (gser s)].
+Proof.
+  intros I Hf. set (T := set_next s mb n) in *.
+  pose proof (find_id_set_next s mb n d Hf) as HfT. fold T in HfT.
+  assert (En : mb_next (next_row mb n d) = n).
+  { unfold next_row. apply find_id_some in Hf. destruct Hf as [_ ->]. now rewrite Z.eqb_refl. }
+  destruct (add_message_good T msg mb fl _ I HfT) as (s2 & Ea & G & Em & El & _ & Eg & Eu).
+  rewrite En in *. rewrite next_row_name, next_row_validity in Eg.
+  unfold add_message in Ea. rewrite HfT, En in Ea. unfold insert_link in *.
+  change (links (bump T mb)) with (links s) in Ea.
+  destruct (existsb (at_uid mb n) (links s)); [discriminate|].
+  eexists. split; [reflexivity|]. split; [|simpl; auto].
+  eapply Good_core_after; [exact G|].
+  repeat split; simpl.
+  - rewrite Em. unfold T. simpl. rewrite map_map. apply map_ext. intros m. unfold bump_row, next_row.
+    destruct (mb_id m =? mb) eqn:E; simpl; rewrite E; reflexivity.
+  - rewrite Eg. unfold log_for. rewrite Hf. reflexivity.
+  - rewrite Eu. reflexivity.
+  - rewrite El. reflexivity.
+Qed.
+
+Lemma NoDup_map_inj_on {A B C} (k : A -> B) (k' : A -> C) l :
+  NoDup (map k l) -> (forall x y, In x l -> In y l -> k' x = k' y -> k x = k y) ->
+  NoDup (map k' l).
+Proof.
+  induction l as [|a l IH]; simpl; intros N H; [constructor|].
+  inversion N as [|? ? Na N']; subst. constructor.
+  - intros C0. apply in_map_iff in C0. destruct C0 as (y & E & Hy). apply Na.
+    rewrite (H a y (or_introl eq_refl) (or_intror Hy) (eq_sym E)). now apply in_map.
+  - apply IH; auto.
+Qed.
+
+(** RENAME INBOX (repaired): the links of row [ib] go to the just created, empty
+    row [nid] whose (name, validity) is new and whose uid_next becomes [x] *)
+Lemma reparent_good s s1 ib nid new t x :
+  Inv s -> Inv s1 ->
+  mboxes s1 = mboxes s ++ [mkMbox nid new t 1] -> links s1 = links s -> glog s1 = glog s ->
+  gused s1 = gused s ++ [(new, t)] ->
+  (forall l, In l (links s) -> lk_mbox l <> nid) -> ~ In (new, t) (gused s) ->
+  (forall l, In l (links s) -> lk_mbox l = ib -> lk_uid l < x) -> ib <> nid ->
+  exists s2, reparent (set_next s1 nid x) ib nid = Some s2 /\ Good s s2.
+Proof.
+  intros I I1 Em El Eg Eu Hnone N Hx Hne.
+  unfold reparent. destruct (ib =? nid) eqn:E0; [apply Z.eqb_eq in E0; contradiction|]. clear E0.
+  set (T := set_next s1 nid x).
+  assert (HfT : find_id T nid = Some (mkMbox nid new t x)).
+  { assert (F1 : find_id s1 nid = Some (mkMbox nid new t 1)).
+    { replace nid with (mb_id (mkMbox nid new t 1)) at 1 by reflexivity. apply find_id_in; auto.
+      rewrite Em. apply in_or_app. right. now left. }
+    unfold T. rewrite (find_id_set_next _ _ x _ F1). unfold next_row. simpl. now rewrite Z.eqb_refl. }
+  assert (Hex : existsb (fun l => existsb (at_uid nid (lk_uid l)) (links T)) (links_in T ib) = false).
+  { apply not_true_is_false. intros X. apply existsb_exists in X. destruct X as (l & _ & X).
+    apply existsb_exists in X. destruct X as (l' & Hl' & X). unfold at_uid in X.
+    apply andb_true_iff in X. destruct X as [X _]. apply Z.eqb_eq in X.
+    simpl in Hl'. rewrite El in Hl'. exact (Hnone l' Hl' X). }
+  rewrite Hex, HfT. eexists. split; [reflexivity|]. simpl mb_name. simpl mb_validity.
+  set (mv := fun l => if in_mbox ib l then mkLink (lk_id l) (lk_msg l) nid (lk_uid l) (lk_flags l) (lk_gid l) else l).
+  assert (Hrl : forall e, In e (relog T ib new t) ->
+            exists l, In l (links s) /\ lk_mbox l = ib /\ e = mkGe new t (lk_uid l) (lk_gid l)).
+  { intros e He. unfold relog in He. apply in_map_iff in He. destruct He as (l & <- & Hl).
+    apply filter_In in Hl. destruct Hl as [Hl Hp]. unfold in_mbox in Hp. apply Z.eqb_eq in Hp.
+    simpl in Hl. rewrite El in Hl. eauto. }
+  assert (Hrl' : forall l, In l (links s) -> lk_mbox l = ib -> In (mkGe new t (lk_uid l) (lk_gid l)) (relog T ib new t)).
+  { intros l Hl E. unfold relog. apply in_map_iff. exists l. split; auto. apply filter_In. split.
+    - simpl. now rewrite El.
+    - unfold in_mbox. now apply Z.eqb_eq. }
+  assert (Hnew : forall e, In e (glog s) -> ge_name e = new -> ge_validity e = t -> False).
+  { intros e He En Ev. apply N. rewrite <- En, <- Ev. now apply (inv_used_e s I). }
+  assert (Hmv : forall l, In l (links s) -> (lk_mbox l = ib /\ lk_mbox (mv l) = nid) \/ (lk_mbox l <> ib /\ mv l = l)).
+  { intros l Hl. unfold mv, in_mbox. destruct (lk_mbox l =? ib) eqn:E; [left|right].
+    - apply Z.eqb_eq in E. simpl. auto.
+    - apply Z.eqb_neq in E. auto. }
+  assert (Hmvu : forall l, lk_uid (mv l) = lk_uid l /\ lk_gid (mv l) = lk_gid l).
+  { intros l. unfold mv. destruct (in_mbox ib l); auto. }
+  assert (Hrow : forall m0, In m0 (mboxes s1) -> mb_id m0 = nid -> m0 = mkMbox nid new t 1).
+  { intros m0 H0 E. apply (NoDup_map_inj mb_id (mboxes s1));
+      [apply I1 | exact H0 | rewrite Em; apply in_or_app; right; now left | exact E]. }
+  assert (Hrown : forall m0, In m0 (mboxes s1) -> mb_name m0 = new -> m0 = mkMbox nid new t 1).
+  { intros m0 H0 E. apply (NoDup_map_inj mb_name (mboxes s1));
+      [apply I1 | exact H0 | rewrite Em; apply in_or_app; right; now left | exact E]. }
+  fold mv. split.
+  - constructor; simpl.
+    + rewrite map_map. erewrite map_ext; [apply (inv_names s1 I1)|]. intros; apply next_row_name.
+    + rewrite map_map. erewrite map_ext; [apply (inv_ids s1 I1)|]. intros; apply next_row_id.
+    + rewrite map_map. rewrite El.
+      apply (NoDup_map_inj_on (fun l => (lk_mbox l, lk_uid l))); [apply (inv_uniq s I)|].
+      intros a b Ha Hb E. destruct (Hmvu a) as [Ua _]. destruct (Hmvu b) as [Ub _].
+      injection E as E1 E2. rewrite Ua, Ub in E2.
+      destruct (Hmv a Ha) as [[A1 A2]|[A1 A2]], (Hmv b Hb) as [[B1 B2]|[B1 B2]].
+      * congruence.
+      * exfalso. rewrite B2 in E1. rewrite A2 in E1. exact (Hnone b Hb (eq_sym E1)).
+      * exfalso. rewrite A2 in E1. rewrite B2 in E1. exact (Hnone a Ha E1).
+      * rewrite A2, B2 in E1. congruence.
+    + intros l' Hl'. apply in_map_iff in Hl'. destruct Hl' as (l & <- & Hl). rewrite El in Hl.
+      destruct (Hmv l Hl) as [[A1 A2]|[A1 A2]].
+      * exists (next_row nid x (mkMbox nid new t 1)). split.
+        -- apply in_map. rewrite Em. apply in_or_app. right. now left.
+        -- rewrite next_row_id. simpl. now rewrite A2.
+      * rewrite A2. rewrite <- El in Hl. destruct (inv_home s1 I1 l Hl) as (m0 & H0 & E).
+        exists (next_row nid x m0). split; [now apply in_map | now rewrite next_row_id].
+    + intros m' l' Hm' Hl' E. apply in_map_iff in Hm'. destruct Hm' as (m0 & <- & H0).
+      apply in_map_iff in Hl'. destruct Hl' as (l & <- & Hl). rewrite El in Hl.
+      rewrite next_row_id in E. rewrite next_row_name, next_row_validity.
+      destruct (Hmvu l) as [-> ->]. apply in_or_app.
+      destruct (Hmv l Hl) as [[A1 A2]|[A1 A2]].
+      * right. rewrite A2 in E. rewrite (Hrow m0 H0 (eq_sym E)). simpl. now apply Hrl'.
+      * left. rewrite A2 in E. rewrite Eg. rewrite <- Eg. rewrite <- El in Hl.
+        now apply (inv_logged s1 I1).
+    + intros e He. apply in_app_or in He. destruct He as [He|He].
+      * now apply (inv_used_e s1 I1).
+      * destruct (Hrl e He) as (l & _ & _ & ->). simpl. rewrite Eu. apply in_or_app. right. now left.
+    + intros m' Hm'. apply in_map_iff in Hm'. destruct Hm' as (m0 & <- & H0).
+      rewrite next_row_name, next_row_validity. now apply (inv_used_m s1 I1).
+    + intros e1 e2 H1 H2 En Ev Eu'. apply in_app_or in H1. apply in_app_or in H2.
+      rewrite Eg in H1, H2.
+      destruct H1 as [H1|H1], H2 as [H2|H2].
+      * now apply (inv_fun s I).
+      * exfalso. destruct (Hrl e2 H2) as (l & _ & _ & ->). simpl in *. eapply Hnew; eauto.
+      * exfalso. destruct (Hrl e1 H1) as (l & _ & _ & ->). simpl in *. eapply Hnew; eauto.
+      * destruct (Hrl e1 H1) as (l1 & L1 & M1 & ->). destruct (Hrl e2 H2) as (l2 & L2 & M2 & ->).
+        simpl in *. f_equal.
+        apply (NoDup_map_inj (fun l => (lk_mbox l, lk_uid l)) (links s)); auto; [apply I | congruence].
+    + intros m' e Hm' He En Ev. apply in_map_iff in Hm'. destruct Hm' as (m0 & <- & H0).
+      rewrite next_row_name in En. rewrite next_row_validity in Ev.
+      apply in_app_or in He. rewrite Eg in He. unfold next_row.
+      destruct (mb_id m0 =? nid) eqn:E0; simpl.
+      * apply Z.eqb_eq in E0. rewrite (Hrow m0 H0 E0) in En, Ev. simpl in En, Ev. destruct He as [He|He].
+        -- exfalso. eapply Hnew; eauto.
+        -- destruct (Hrl e He) as (l & Hl & Ml & ->). simpl. now apply Hx.
+      * apply Z.eqb_neq in E0. destruct He as [He|He].
+        -- rewrite <- Eg in He. now apply (inv_next s1 I1 m0 e).
+        -- destruct (Hrl e He) as (l & _ & _ & ->). simpl in En. exfalso. apply E0.
+           rewrite (Hrown m0 H0 (eq_sym En)). reflexivity.
+  - repeat split; simpl.
+    + rewrite Eg. apply incl_appl, incl_refl.
+    + rewrite Eu. apply incl_appl, incl_refl.
+    + intros m' Hm'. apply in_map_iff in Hm'. destruct Hm' as (m0 & <- & H0).
+      rewrite next_row_name, next_row_validity. rewrite Em in H0. apply in_app_or in H0.
+      destruct H0 as [H0|[<-|[]]].
+      * left. exists m0. repeat split; auto. unfold next_row.
+        destruct (mb_id m0 =? nid) eqn:E0; simpl; [|lia]. exfalso. apply Z.eqb_eq in E0.
+        assert (In m0 (mboxes s1)) by (rewrite Em; apply in_or_app; now left).
+        pose proof (Hrow m0 H E0) as ->. simpl in *.
+        apply N. now apply (inv_used_m s I (mkMbox nid new t 1)).
+      * right. exact N.
+    + intros e' He' Nn e He En Ev. apply in_app_or in He'. rewrite Eg in He'.
+      destruct He' as [He'|He']; [contradiction|].
+      destruct (Hrl e' He') as (l & _ & _ & ->). simpl in *. exfalso. eapply Hnew; eauto.
 Qed.
